@@ -117,7 +117,7 @@ func checkMain(args []string) {
 	thorough := *tier == "thorough"
 	timeout := 10
 	if thorough {
-		timeout = 60
+		timeout = 30
 	}
 	prog, err := LoadProgram(filepath.Join(*repo, cfg.RepoSubdir), cfg.Packages, filepath.Join(*verif, "contracts", "extern"))
 	violations := 0
